@@ -71,8 +71,12 @@ pub fn shadow_cases() -> Vec<Value> {
             format!("query Q($v: Int @{d}) {{ t {{ a }} }}"),
         ];
         for (shape, decl) in &decls {
-            for u in &uses {
+            for (ui, u) in uses.iter().enumerate() {
+                // the standalone mode (values printed, too) for the plain forms; the default mode for all
                 for cfg in [None, Some(STANDALONE)] {
+                    if cfg.is_some() && ui >= 6 {
+                        continue;
+                    }
                     let field_dir = if *shape == "type-system-location" { format!(" @{d}") } else { String::new() };
                     case(&mut out, &format!("directive-{d}:{shape}"), &format!("{decl}\ntype Query {{ a: Int{field_dir} t: Query }}\n"), u, cfg);
                 }
